@@ -98,3 +98,73 @@ def _dangling(case, draw):
 
 def _plain_closure(prog, mi):
     return prog['modules'][mi]['deps']
+
+
+def _all_nodes(case):
+    for fi, f in enumerate(case['files']):
+        if f.get('parts'):
+            for pn, nd in f['parts'].items():
+                yield fi, pn, nd
+        elif f.get('node') is not None:
+            yield fi, None, f['node']
+
+
+@st.composite
+def invalid_config(draw, case):
+    """missing-required (value present only in another config), wrong-type, conflict (two configs, one namespace)."""
+    from tcv import gen
+    case = copy.deepcopy(case)
+    prog = case['program']
+    kind = draw(st.sampled_from(['missing-required', 'wrong-type', 'conflict', 'conflict']))
+    nodes = [(fi, pn, nd) for fi, pn, nd in _all_nodes(case) if nd['module'] is not None]
+    if kind == 'missing-required':
+        cands = []
+        for fi, pn, nd in nodes:
+            for key, plist in gen.param_keys_of_module(prog['modules'][nd['module']]).items():
+                if key in nd['values'] and any('default' not in p for p in plist):
+                    cands.append((fi, pn, key))
+        if not cands:
+            kind = 'conflict'
+        else:
+            fi, pn, key = draw(st.sampled_from(cands))
+            nd = case['files'][fi]['parts'][pn] if pn else case['files'][fi]['node']
+            val = nd['values'].pop(key)
+            # the value is still present elsewhere in the tree: in the root config and in configs of other modules
+            for fj, pj, other in _all_nodes(case):
+                if other is not nd and other['module'] != nd['module']:
+                    other['values'].setdefault(key, val)
+            case['mutation_note'] = f'{key} removed from {case["files"][fi]["name"]}'
+    if kind == 'wrong-type':
+        cands = []
+        for fi, pn, nd in nodes:
+            for key, plist in gen.param_keys_of_module(prog['modules'][nd['module']]).items():
+                dts = {p['dtype'] for p in plist if p.get('dtype') in ('int', 'str', 'list')}
+                if dts:
+                    cands.append((fi, pn, key, sorted(dts)[0]))
+        if not cands:
+            kind = 'conflict'
+        else:
+            fi, pn, key, dt = draw(st.sampled_from(cands))
+            nd = case['files'][fi]['parts'][pn] if pn else case['files'][fi]['node']
+            nd['values'][key] = {'int': 'seven', 'str': 7, 'list': {'a': 1}}[dt]
+    if kind == 'conflict':
+        # a second config file for a module, mounted plainly next to an existing instance of that module
+        fi, pn, nd = draw(st.sampled_from(nodes))
+        twin = copy.deepcopy(nd)
+        twin['uses'] = []
+        twin.pop('main_part', None)
+        case['files'].append({'name': 'twin', 'fmt': 'json', 'node': twin})
+        ti = len(case['files']) - 1
+        users = [(fj, pj, other) for fj, pj, other in _all_nodes(case)
+                 if any(u['file'] == fi and u.get('part') == pn for u in other['uses'])]
+        new_use = {'file': ti, 'mod': nd['module'], 'variant': None, 'ns': None, 'placeholder': False}
+        if users and draw(st.booleans()):
+            fj, pj, other = draw(st.sampled_from(users))
+            old = [u for u in other['uses'] if u['file'] == fi and u.get('part') == pn][0]
+            new_use['ns'] = old.get('ns')
+            pos = draw(st.integers(0, len(other['uses'])))
+            other['uses'].insert(pos, new_use)
+        else:
+            nd['uses'].insert(draw(st.integers(0, len(nd['uses']))), new_use)
+    case['mutation'] = kind
+    return case
